@@ -80,6 +80,9 @@ def writer_stream(ctx, g, batch, ir, auxinfo, tag):
     want_aux = {}
     for cont, key, t, v in auxinfo:
         env = irgen.AuxEnv(g, ir, ctx.rng)
+        if t[0] == "__raw__":
+            want_aux[(content.U(cont), key)] = (t[1], list(bytes(v)))
+            continue
         want_aux[(content.U(cont), key)] = (auxval.type_str(t), auxval.oracle_encode(t, v, env))
     p = parse_body(bs)
     for holder, mp in [(content.U(ir), p.aux_data)] + [(int.from_bytes(m.uuid, "big"), m.aux_data) for m in p.modules]:
@@ -171,6 +174,17 @@ def aux_values_check(ctx, g, ir2, auxinfo, ir, tag):
             ctx.add("oracle", "roundtrip:aux-lost", "AuxData table %r is missing after load" % key, {"tag": tag})
             continue
         a2 = c2.aux_data[key]
+        if t[0] == "__raw__":
+            try:
+                got = a2.data
+            except Exception as e:  # noqa: BLE001
+                ctx.add("oracle", "roundtrip:aux-decode", "AuxData table %r (type %s) fails to decode after load: %s" % (key, t[1], exc_name(g, e)), {"tag": tag})
+                continue
+            if a2.type_name != t[1] or not isinstance(got, g.serialization.UnknownData) or bytes(got) != bytes(v):
+                ctx.add("oracle", "roundtrip:aux-value", "AuxData table %r of the codec-less type %s does not come back as the same blob after load" % (key, t[1]),
+                        {"tag": tag, "type": t[1], "want": bytes(v).hex(), "have": bytes(got).hex() if isinstance(got, (bytes, bytearray)) else repr(got)[:200]})
+            ctx.count("aux_values_checked")
+            continue
         if a2.type_name != auxval.type_str(t):
             ctx.add("oracle", "roundtrip:aux-type", "AuxData table %r has type %r after load, was %r" % (key, a2.type_name, auxval.type_str(t)), {"tag": tag})
             continue
